@@ -176,6 +176,7 @@ func checkC02(rep *Report, pool *DriverPool, c *RCase) {
 		rep.Violate("panic-or-hang", "", fmt.Sprintf("panic=%q hang=%v", o.Panic, o.Hang), c)
 		return
 	}
+	compareReaderModel(rep, pool, c, nil, stream, false, &o, true, -1, false)
 	if o.Err != "EOF" || !bytes.Equal(o.Bytes, so) {
 		rep.Violate("differs-from-stdlib", "", fmt.Sprintf("compress/flate: %d bytes, EOF; fastgo: %d bytes, %s (first difference at %d)", len(so), len(o.Bytes), o.Err, firstDiff(o.Bytes, so)), c)
 	}
@@ -282,6 +283,10 @@ func checkC04(rep *Report, pool *DriverPool, c *RCase) {
 		rep.Violate("panic-or-hang", "", fmt.Sprintf("panic=%q/%q hang=%v/%v", o.Panic, base.Panic, o.Hang, base.Hang), c)
 		return
 	}
+	if c.Src.Term == "eof" || c.Src.Term == "eofdata" {
+		_, sk, _ := stdInflate(nil, stream)
+		compareReaderModel(rep, pool, c, nil, stream, false, &o, sk == "EOF" || c.Cut >= 0, -1, c.Cut >= 0)
+	}
 	if o.Err != base.Err || !bytes.Equal(o.Bytes, base.Bytes) {
 		class := ""
 		if c.Cut >= 0 && o.Err == "UEOF" && base.Err == "UEOF" && (isPrefix(o.Bytes, base.Bytes) || isPrefix(base.Bytes, o.Bytes)) && absInt(len(o.Bytes)-len(base.Bytes)) <= 3*258 {
@@ -319,6 +324,13 @@ func checkC05(rep *Report, pool *DriverPool, c *RCase) {
 	if o.CtorErr != "" || o.Err != "EOF" || !bytes.Equal(o.Bytes, data) {
 		rep.Violate("valid-stream-not-decoded", "", fmt.Sprintf("ctor=%q err=%s bytes=%d expected %d", o.CtorErr, o.Err, len(o.Bytes), len(data)), c)
 		return
+	}
+	if c.API == "flate" && dict == nil {
+		cons := -1
+		if o.LeftKnown && c.Src.Kind == "bufio" {
+			cons = len(stream) - len(o.Left)
+		}
+		compareReaderModel(rep, pool, c, nil, stream, false, &o, true, cons, false)
 	}
 	if !o.LeftKnown {
 		return
@@ -417,6 +429,9 @@ func checkC15(rep *Report, pool *DriverPool, c *RCase) {
 	if o.Panic != "" || o.Hang {
 		rep.Violate("panic-or-hang", "", o.Panic, c)
 		return
+	}
+	if c.API == "flate" && dict == nil && (c.Src.Term == "err" || c.Src.Term == "errdata") && c.Src.After >= 0 && c.Src.After < len(stream) {
+		compareReaderModel(rep, pool, c, nil, stream[:c.Src.After], true, &o, true, -1, true)
 	}
 	if c.Src.After >= len(stream) && c.Src.Term == "err" && c.API == "flate" {
 		// the whole stream was delivered: both io.EOF and the error are defensible; C11 decides
